@@ -11,10 +11,11 @@
 //
 // Oracle: for every operation that returned 2xx, once every replica of the volume
 // is up, each replica is read directly and the replicas are compared pairwise:
-//   * needle level: the needle is read from the replica's own .idx/.dat files
+//   - needle level: the needle is read from the replica's own .idx/.dat files
 //     (state found / not found, decoded data, name, mime, pairs, last-modified, ttl);
-//   * client level: GET (Accept-Encoding identity and gzip) and HEAD on each server
+//   - client level: GET (Accept-Encoding identity and gzip) and HEAD on each server
 //     (status, decoded body, Content-Type, Content-Disposition, Last-Modified, pairs).
+//
 // Operations that did not return 2xx are not judged; their file id is judged again
 // after its next 2xx operation. At the end every file id whose last operation
 // returned 2xx is judged once more (after all restarts).
@@ -90,7 +91,7 @@ type fidInfo struct {
 	lastSpec *upSpec
 	lastSeq  string // relation of the last upload to what the file id held before
 	entry    string // "holder" / "non-holder": whether the server the last op was sent to holds the volume
-	during   string // "all-replicas-up" / "replica-down": state of the volume's replicas when the last op returned
+	during   string // "no-replica-down-so-far" / "after-a-replica-was-down" / "replica-down": the volume's replicas when the last op returned
 	hist     []opRec
 	judged   int
 }
@@ -285,13 +286,25 @@ type world struct {
 	byFid   map[string]*fidInfo
 	nextKey uint64
 	down    map[int]bool // servers currently stopped or killed
-	mu      sync.Mutex
-	fault   string // label of the fault episode in progress ("" none)
+	// volumes that had a replica down at some point of the run (volume servers cache the
+	// master's location list for 10 minutes, so a lookup made then can still be in use)
+	volDowned map[uint32]bool
+	mu        sync.Mutex
+	fault     string // label of the fault episode in progress ("" none)
 }
 
 func (w *world) setDown(server int, d bool) {
 	w.mu.Lock()
 	w.down[server] = d
+	if d {
+		for _, v := range w.volList {
+			for _, s := range v.Servers {
+				if s == server {
+					w.volDowned[v.Vid] = true
+				}
+			}
+		}
+	}
 	w.mu.Unlock()
 }
 
@@ -532,7 +545,10 @@ func (w *world) record(f *fidInfo, kind string, primary int, s *upSpec, st int) 
 	if f.entry == "non-holder" {
 		w.r.Count("ops_sent_to_a_server_not_holding_the_volume", 1)
 	}
-	f.during = "all-replicas-up"
+	f.during = "no-replica-down-so-far"
+	if w.volDowned[f.Vid] {
+		f.during = "after-a-replica-was-down"
+	}
 	for _, sv := range f.Vol.Servers {
 		if w.down[sv] {
 			f.during = "replica-down"
@@ -1348,7 +1364,7 @@ func main() {
 	if !c.WaitAssign("replication=002", 180) || !c.WaitAssign("replication=001", 60) {
 		finish(0)
 	}
-	w := &world{r: r, c: c, grpcOpt: grpc.WithInsecure(), vols: map[uint32]*volInfo{}, byFid: map[string]*fidInfo{}, down: map[int]bool{},
+	w := &world{r: r, c: c, grpcOpt: grpc.WithInsecure(), vols: map[uint32]*volInfo{}, byFid: map[string]*fidInfo{}, down: map[int]bool{}, volDowned: map[uint32]bool{},
 		hc: &http.Client{Timeout: 120 * time.Second, Transport: &http.Transport{DisableKeepAlives: true, DisableCompression: true}}}
 	rng := r.SubRng("c40-ops")
 
